@@ -6,7 +6,7 @@ From Irismod Require Import Queues.Common.
 From Irismod Require Queues.Htlc Queues.ProofsHtlc Queues.CheckHtlc Queues.SoundHtlc.
 From Irismod Require Queues.Random Queues.ProofsRandom Queues.CheckRandom Queues.SoundRandom.
 From Irismod Require Queues.Farm Queues.ProofsFarm Queues.CheckFarm Queues.SoundFarm Queues.PassFarm.
-From Irismod Require Queues.Service Queues.ProofsService Queues.CheckService Queues.SoundService.
+From Irismod Require Queues.Service Queues.ProofsService Queues.CheckService Queues.SoundService Queues.PassService.
 
 (** ** HTLC (modules/htlc/abci.go: BeginBlocker; keeper/htlc.go) *)
 Module H.
@@ -327,6 +327,15 @@ Theorem service_check_hygiene_clause_sound :
   forall h0 ops, Queues.CheckService.shyg (Queues.SoundService.obs_of (run (init h0) ops)) = true.
 Proof. exact Queues.SoundService.hygiene_clause_holds_on_every_history. Qed.
 Print Assumptions service_check_hygiene_clause_sound.
+
+(** The model passes its own check — with no hypothesis on the history: the checker that is run
+    on the implementation's traces, fed the observations the MODEL produces, returns (-1,-1,0):
+    no divergence and no clause of the C13 predicate (41 abort, 42 hygiene, 43 every batch entry
+    handled once, at its height, with the batch started / completed) fires. *)
+Theorem model_passes_check_service :
+  forall h0 ops, Queues.CheckService.check_service (h0, Queues.PassService.mtrace (init h0) ops) = (-1, -1, 0).
+Proof. exact Queues.PassService.model_passes_check_service. Qed.
+Print Assumptions model_passes_check_service.
 
 (** non-vacuity: a repeated context (timeout 2, every 3 blocks, 2 batches) paused and restarted
     while its batch runs, a one-shot context answered in time, one whose consumer cannot pay *)
